@@ -111,16 +111,16 @@ def _gr_handler(t, b):
     b.append(t)
 
 
-def gr_queue_param(p):
+def gr_queue_param(xs):
     Q = myQueue(10)
-    Q.add(1.0, _gr_handler, args=(p,))
+    Q.add(1.0, _gr_handler, args=(xs,))
     Q.pop_and_run()
 CASES['gr_queue_param'] = [('L',)]
 
 
-def gr_queue_copy(p):
+def gr_queue_copy(xs):
     Q = myQueue(10)
-    Q.add(1.0, _gr_handler, args=(list(p),))
+    Q.add(1.0, _gr_handler, args=(list(xs),))
     Q.pop_and_run()
 CASES['gr_queue_copy'] = [('L',)]
 
